@@ -10,9 +10,12 @@ Local Open Scope Z_scope.
 (* authorisation facts read from the state BEFORE the transaction *)
 Inductive c03_fact :=
 | FCustody (owner benef : Z) (cs reward : coins) (legit_votes n mode : Z) (enabled pw_ok : bool)
-           (caller_is_fresh_custodian : bool) (recorded_votes : Z)
-    (* the pending custody transfer named by an approve/confirm message of this transaction:
-       approvals so far by LISTED custodians, number of custodians, required percentage *)
+           (caller_is_fresh_custodian : bool) (recorded_votes : Z) (caller_listed : bool)
+    (* the pending custody transfer named by an approve/confirm message of this transaction.
+       [legit_votes] = DISTINCT listed custodians whose approval of it was accepted so far, from
+       the harness' ghost record of accepted messages (not from the module's vote store);
+       number of custodians, required percentage; is the caller a listed custodian who has not
+       approved yet; votes the module has on record; is the caller listed at all *)
 | FRotate (owner new : Z) (proof_ok : bool)
 | FRotateRR (owner new : Z) (holder_amount supply : Z)
 | FPool (share_denom native_denom : string) (keep : Z).
@@ -134,7 +137,7 @@ Definition bal_delta (c : c03_case) (a : Z) (d : string) : Z :=
    custodians (the caller's own approval included when he is one and has not voted yet) *)
 Definition custody_threshold (f : c03_fact) : bool :=
   match f with
-  | FCustody _ _ _ _ legit n mode enabled pw_ok fresh _ =>
+  | FCustody _ _ _ _ legit n mode enabled pw_ok fresh _ _ =>
       (if enabled && (0 <? n) then mode * n <=? (legit + (if fresh then 1 else 0)) * 100 else true) && pw_ok
   | _ => false
   end.
@@ -144,7 +147,7 @@ Definition custody_share (reward : coins) (n : Z) (d : string) : Z :=
 Fixpoint custody_fact_of (o : Z) (fs : list c03_fact) : option c03_fact :=
   match fs with
   | [] => None
-  | (FCustody o' _ _ _ _ _ _ _ _ _ _ as f) :: r => if o' =? o then Some f else custody_fact_of o r
+  | (FCustody o' _ _ _ _ _ _ _ _ _ _ _ as f) :: r => if o' =? o then Some f else custody_fact_of o r
   | _ :: r => custody_fact_of o r
   end.
 Fixpoint rotate_fact_of (o : Z) (fs : list c03_fact) : option (Z * bool) :=
@@ -160,24 +163,28 @@ Definition coin_clause (c : c03_case) (a : Z) (d : string) (b f : Z) : list stri
   if (b <=? f) || negb (is_user a) || signed c a then [] else
   let drop := b - f in
   match custody_fact_of a (k_facts c) with
-  | Some (FCustody _ benef cs reward legit n mode enabled pw_ok fresh recorded as fact) =>
+  | Some (FCustody _ benef cs reward legit n mode enabled pw_ok fresh recorded listed as fact) =>
       let share := if fresh then custody_share reward n d else 0 in
+      let full_share := custody_share reward n d in
+      (* who was paid a reward share that is not due: a stranger, or a listed custodian whose
+         approval had already been counted (a repeat must neither be paid nor counted again) *)
+      let undue := if fresh then [] else if 0 <? full_share then
+                     (if listed then ["custody-repeat-approval-rewarded"] else ["custody-reward-to-non-custodian"]) else [] in
       if custody_threshold fact then
         (* released: at most the requested amount plus the caller's reward share, and the
            requested amount arrives at the recorded beneficiary *)
-        (if drop <=? amount_of cs d + share then [] else ["custody-release-exceeds-request"]) ++
-        (if fresh then [] else if 0 <? custody_share reward n d
-                               then ["custody-reward-to-non-custodian"] else []) ++
-        (if (benef =? a) || (amount_of cs d <=? bal_delta c benef d) || (drop <=? share) then []
+        (if drop <=? amount_of cs d + (if fresh then share else full_share) then [] else ["custody-release-exceeds-request"]) ++
+        undue ++
+        (if (benef =? a) || (amount_of cs d <=? bal_delta c benef d) || (drop <=? full_share) then []
          else ["custody-release-not-to-beneficiary"])
       else
-        (* every vote on record is a listed custodian's, yet the transfer was released short of the
-           configured share: the threshold arithmetic itself is off *)
-        (if fresh then (if drop <=? share then []
-                        else if recorded =? legit then ["custody-threshold-arithmetic"]
-                        else ["custody-release-below-threshold"])
-         else (if drop <=? custody_share reward n d then ["custody-reward-to-non-custodian"]
-               else ["custody-reward-to-non-custodian"; "custody-release-below-threshold"]))
+        (* distinct listed custodians (the caller included when his approval is new) fall short
+           of the configured share: nothing but a due reward share may leave the owner *)
+        if fresh then (if drop <=? share then []
+                       else if recorded =? legit then ["custody-threshold-arithmetic"]
+                       else ["custody-release-below-threshold"])
+        else if drop <=? full_share then undue
+        else undue ++ [if listed then "custody-repeat-approval-released" else "custody-release-below-threshold"]
   | _ =>
       match rotate_fact_of a (k_facts c) with
       | Some (nw, true) => if drop <=? bal_delta c nw d then [] else ["rotation-not-to-new-address"]
@@ -228,6 +235,22 @@ Definition block_claim_clause (c : c03_case) (e : claim_row) : list string :=
   if 0 <=? claims_net c "" o d + bal_delta c o d + share_credit c o d then []
   else [String.append "block-claim-" (row_kind e)].
 
+(* a rotation moves claims: per claim kind and denom the old and the new address together hold
+   after the transaction exactly what they held before (nothing lost, reset or duplicated) *)
+Definition kind_net (c : c03_case) (k : string) (o : Z) (d : string) : Z :=
+  fold_right (fun e acc => if (row_owner e =? o) && String.eqb (row_denom e) d && String.eqb (row_kind e) k
+                           then row_delta e + acc else acc) 0 (k_claims c).
+Definition rotation_clauses (c : c03_case) : list string :=
+  flat_map (fun f =>
+    let check old nw :=
+      flat_map (fun e => if ((row_owner e =? old) || (row_owner e =? nw))
+                            && negb (kind_net c (row_kind e) old (row_denom e) + kind_net c (row_kind e) nw (row_denom e) =? 0)
+                         then [String.append "rotation-claim-not-preserved-" (row_kind e)] else []) (k_claims c) in
+    match f with
+    | FRotate old nw _ => check old nw
+    | FRotateRR old nw _ _ => check old nw
+    | _ => [] end) (k_facts c).
+
 Fixpoint dedup (l : list string) : list string :=
   match l with [] => [] | x :: r => if str_in x r then dedup r else x :: dedup r end.
 
@@ -235,7 +258,7 @@ Definition case_clauses (c : c03_case) : list string :=
   dedup (
   if k_phase c =? 0 then
     flat_map (fun e => let '(a, d, b, f) := e in coin_clause c a d b f) (k_bal c) ++
-    flat_map (claim_clause c "") (k_claims c)
+    flat_map (claim_clause c "") (k_claims c) ++ rotation_clauses c
   else
     (* begin / end of block: nobody signed; user balances never go down; a user's recorded claims
        (every kind, per denom) may only grow, be paid out to their owner, or be converted into
